@@ -420,3 +420,12 @@ Example C20_ex_key_escapes :
   = ["['f', ['""a\'b""'], {}]"; "['f', ['""a\\\\\'b""'], {}]"; "['f', ['""a\\""b""'], {}]"; "['f', ['""a\', \'b""'], {}]"]%string
   /\ ex_text [] [("it's", AInt 1)]%string = "['f', [], {""it's"": '1'}]"%string.
 Proof. vm_compute. auto. Qed.
+
+(* the numbers returned by column statistics (col.mean, col.max, ...: floats that are callable for backwards
+   compatibility) are keyed by value like any other number, not by name like a function -- on the regenerated dispatch
+   chain of _serialize_obj (repaired: every such argument was keyed as '__nameless__', so f(dm.a.mean) and f(dm.a.max)
+   shared one entry) *)
+Theorem C20_callable_numbers_keyed_by_value : forall has_name : bool,
+  k_serialize_obj true true has_name false false false false = BDumps.
+Proof. exact k_serialize_obj_callable_value. Qed.
+Print Assumptions C20_callable_numbers_keyed_by_value.
